@@ -2,8 +2,31 @@
 """regenerates MANIFEST.json from tools/manifest_src.py (claimed checks) - properties not claimed yet are listed under not_applicable"""
 import json, os, sys
 here = os.path.dirname(os.path.abspath(__file__))
-sys.path.insert(0, here)
-import manifest_src as S
+NOTES = ("Every check: (1) regenerates the generated Lean definitions from /repo's working tree and runs `lake build` (theorems re-checked), "
+         "(2) audits axioms (allowed: propext, Classical.choice, Quot.sound) and greps for sorry/native_decide/axiom, "
+         "(3) replays corpus/<id>, runs generated cases through the implementation and the compiled Lean model and diffs canonicalised replies, "
+         "(4) applies the property's laws to the implementation's own outputs. Exit 0 / 1 (VIOLATION line) / 2 (machinery failure).")
+CHECKS, NOT_APPLICABLE = {}, {}
+md = os.path.join(here, 'manifest.d')
+for f in sorted(os.listdir(md)):
+    if f.endswith('.json'):
+        j = json.load(open(os.path.join(md, f)))
+        if 'not_applicable' in j:
+            NOT_APPLICABLE[f[:-5]] = j['not_applicable']
+        else:
+            CHECKS[f[:-5]] = j
+class S: pass
+S.CHECKS, S.NOT_APPLICABLE, S.NOTES = CHECKS, NOT_APPLICABLE, NOTES
+# known findings: the committed file known_findings.json is assembled from known_findings.d/*.json
+kd = os.path.join(here, '..', 'known_findings.d')
+allf = []
+for f in sorted(os.listdir(kd)):
+    if f.endswith('.json'):
+        allf.extend(json.load(open(os.path.join(kd, f))))
+json.dump(dict(comment="Committed list of genuine defects of gityoav/pyg-base found by the checks (assembled from known_findings.d/ by tools/gen_manifest.py). "
+               "status=known entries are reported as KNOWN-FINDING lines and suppress only the specific input class named by their matcher; "
+               "status=fixed entries suppress nothing. Never written at run time.", findings=allf),
+          open(os.path.join(here, '..', 'known_findings.json'), 'w'), indent=1)
 props = [json.loads(l) for l in open(os.path.join(here, '..', 'properties.jsonl'))]
 checks, na = [], []
 for p in props:
@@ -24,7 +47,7 @@ for p in props:
         technique=c.get('technique', 'Lean 4 theorems about an executable model + differential correspondence check of the model against the implementation')))
 m = dict(
     version=1,
-    setup_cmd='cd lean && lake build',
+    setup_cmd='./tools/setup.sh',
     hooks=dict(guard='PYG_BASE_VERIF', enable='no source hooks: the harness calls pyg_base in-process from /repo/src (editable install); PYG_BASE_VERIF=1 is exported by ./check but nothing in /repo reads it',
                baseline_off_cmd='cd /repo && /venv/bin/python -m pytest -ra -q -p no:cacheprovider --timeout=900 --continue-on-collection-errors',
                source_commits=[], add_only=True),
